@@ -5,7 +5,7 @@ from lib.checkdef import default_replay_cmd, run_property
 def run(tier, seed):
     return run_property(
         "C05", tier, seed, level="other",
-        deductive=[("c05_ops", None)],
+        deductive=[("c05_ops", None), ("c13_inplace", r"^C05\.inplace")],
         bounded=[("graph_bounded.py", ["--check", "C05"])],
         trusted=["NumPy's own in-place / view semantics are the specification of the functional twin", "pointwise-real axioms (pyvc/realdom.py) for the mask algebra"],
         assumptions=[
